@@ -17,6 +17,26 @@ from harness.core import import_cuqi, quiet, q, qv, qm, pm, close, vclose, mclos
 
 TOL = 1e-9
 
+# margins of the tolerance-based comparisons: per comparison site the largest PASSING ratio deviation/tolerance and the smallest
+# FAILING one (a passing ratio above 0.1 or a failing one below 10 would mean the verdict hangs on floating-point noise)
+_MARGINS = {}
+_CUR = {}
+
+
+def _margin(site, ratio):
+    if not np.isfinite(ratio):
+        return
+    m = _MARGINS.setdefault(site, {"max_pass": 0.0, "min_fail": None, "n": 0})
+    m["n"] += 1
+    if ratio <= 1.0:
+        if ratio > m["max_pass"] and ratio > 0.01:
+            import traceback
+            m["where_max_pass"] = [f"{f.name}:{f.lineno}" for f in traceback.extract_stack(limit=6)[:-2]]
+            m["case_max_pass"] = _CUR.get("line", "")[:160]
+        m["max_pass"] = max(m["max_pass"], float(ratio))
+    else:
+        m["min_fail"] = float(ratio) if m["min_fail"] is None else min(m["min_fail"], float(ratio))
+
 
 # ----------------------------------------------------------------------------------------------- helpers
 def fl(a):
@@ -67,10 +87,12 @@ def same(Mmodel, Mimpl, exact):
         return False
     # RELATIVE to the largest entry (the exact model is scale-free; no absolute floor)
     scale = max(np.abs(Mmodel).max(), np.abs(Mimpl).max())
+    if scale > 0:
+        _margin("tie(same,1e-9)", float(np.abs(Mmodel - Mimpl).max()) / (TOL * scale))
     return bool(np.all(np.abs(Mmodel - Mimpl) <= TOL * scale))
 
 
-def differ(X, Y, exact=False):
+def differ(X, Y, exact=False, record=True):
     """oracle comparison of two implementation matrices: exact where the data make the implementation exact
     (unit-vector probes of plain geometries), else relative to the largest entry (no absolute floor)"""
     if X is None or Y is None:
@@ -84,6 +106,8 @@ def differ(X, Y, exact=False):
     if exact:
         return not np.array_equal(X, Y)
     scale = max(np.abs(X).max(), np.abs(Y).max())
+    if scale > 0 and record:
+        _margin("oracle(differ,1e-9)", float(np.abs(X - Y).max()) / (TOL * scale))
     return bool(np.any(np.abs(X - Y) > TOL * scale))
 
 
@@ -275,6 +299,8 @@ def rel_differ(got, want, scale, tol=TOL):
     """entrywise |got - want| > tol*scale (scale 0: must be exactly equal)"""
     if got is None or want is None or got.shape != want.shape or np.isnan(got).any():
         return True
+    if scale > 0 and got.size:
+        _margin(f"inputs(rel_differ,{tol:g})", float(np.abs(got - want).max()) / (tol * scale))
     return bool(np.any(np.abs(got - want) > tol * scale))
 
 
@@ -375,6 +401,8 @@ def oracle_linear(ctx, res, keyf, desc, adjoint_pair=True, exact=False):
         else:
             for (x, y, lhs, rhs) in res["ip"]:
                 ipscale = float(np.abs(F).max() * np.abs(x).sum() * np.abs(y).sum()) if F.size else 0.0
+                if ipscale > 0:
+                    _margin("oracle(inner product,1e-9)", abs(lhs - rhs) / (1e-9 * ipscale))
                 if abs(lhs - rhs) > 1e-9 * ipscale:
                     ctx.fail(keyf("adjoint"), {**desc, "x": x, "y": y}, lhs, rhs, "<A x, y> != <x, A* y>")
                     bad.add("adjoint")
@@ -576,7 +604,10 @@ def psf_same(model_txt, Pimpl, tol=1e-11):
         return False
     if Pm.size == 0:
         return True
-    return bool(np.all(np.abs(Pm - Pi) <= tol * max(np.abs(Pm).max(), np.abs(Pi).max())))
+    sc_ = max(np.abs(Pm).max(), np.abs(Pi).max())
+    if sc_ > 0:
+        _margin(f"psf(psf_same,{tol:g})", float(np.abs(Pm - Pi).max()) / (tol * sc_))
+    return bool(np.all(np.abs(Pm - Pi) <= tol * sc_))
 
 
 def psf_hist(ctx, name, s, outcome):
@@ -597,10 +628,12 @@ def run(ctx):
     """entry point: the test-problem constructors draw from numpy's global RNG, which is restored"""
     import_cuqi()
     st = np.random.get_state()
+    _MARGINS.clear()
     try:
         _run(ctx)
     finally:
         np.random.set_state(st)
+        ctx.extra_cov["tolerance_margins"] = {k: dict(v) for k, v in _MARGINS.items()}
 
 
 def _run(ctx):
@@ -1411,6 +1444,10 @@ def _run(ctx):
     repr_case(gS(4, 2), GSpec("Default1D", "plain", lambda: _D1(4), "id:4"), g1("Discrete", 4), True)
     repr_case(g1("Continuous1D", 4), gI(2, 2, "F"), gI(2, 2, "F"), True); repr_case(gI(2, 2, "C"), gI(2, 2, "F"), g1("Continuous1D", 4), False)
     repr_case(gI(2, 3, "F"), gI(3, 2, "F"), gI(2, 3, "C"), True); repr_case(gM(4, m4, "Mapped-scale"), gS(4, 4), gC2(2, 2), True)
+    # rarely hit branches (histogram `repr_branches`): equal domain and range geometries (`out.parameters` converts), expansion domain whose
+    # par2fun returns a fresh ndarray (foreign tag dropped)
+    repr_case(gI(2, 2, "F"), gI(2, 2, "F"), gI(2, 2, "C"), True); repr_case(gC2(2, 3), gC2(2, 3), gI(2, 3, "F"), True)
+    repr_case(gS(4, 4), g1("Continuous1D", 4), g1("Discrete", 4), True); repr_case(gS(6, 6), gI(2, 3, "F"), g1("Continuous1D", 6), True)
 
     # the class of inputs where geometry equality is asymmetric: `_DefaultGeometry1D.__eq__` accepts every Continuous1D
     # subclass with the same grid, so a default domain "equals" a StepExpansion range on the grid 0..n-1 and the
@@ -1514,7 +1551,7 @@ def _run(ctx):
             mode = MODE1[BC.lower()]
             C = cols(lambda x: convolve1d(x, Pl, mode=mode), n)
             st = ctx.extra_cov.setdefault("deconv1d_vs_convolve1d", {"equal": 0, "transposed_only": 0, "other": 0})
-            st["equal" if not differ(A, C) else "transposed_only" if not differ(A, C.T) else "other"] += 1
+            st["equal" if not differ(A, C, record=False) else "transposed_only" if not differ(A, C.T, record=False) else "other"] += 1   # observation only (no verdict): not in the margins
         if P is not None:
             jobs.append((f"deconv1 {BC} {n} {qv(Pl)}", h))
             return
@@ -1628,8 +1665,6 @@ def _run(ctx):
                 return
             if not same(parse_L(out), impl, not named):
                 ctx.disagree(key, desc, out[:300], impl.tolist(), "legacy circulant matrix differs from the model's assembly (mirror extension / roll / toeplitz)")
-                if differ(impl, impl.T) and named:
-                    ctx.fail(key, desc, "symmetric circulant matrix (theorem legacy_named_symmetric)", impl.tolist(), "named legacy matrix is not symmetric")
         jobs.append((f"legacy {BC} {0 if size is None else 1} {dim} {PSF if named else '-'} {vtok}", h))
 
     for dim_ in ((2, 4, 6, 8) if not thorough else (2, 4, 6, 8, 10, 12, 16)):
@@ -1919,6 +1954,7 @@ def _run(ctx):
         if out == "bad-op":
             ctx.disagree("tie:protocol", {"line": line[:200]}, "bad-op", "-", "driver could not parse a generated line")
             continue
+        _CUR["line"] = line
         try:
             h(out)
         except Exception as e:
